@@ -459,6 +459,7 @@ pub fn run_history_property(a: &WorkerArgs) -> WorkerReport {
     // light-weight scripts on queues of 4 096 ... 131 073 elements (thresholds of fast paths)
     {
         let hc = crate::huge::huge_cases(prop);
+        crate::huge::HUGE_PROP.with(|p| p.set(prop));
         let mut ran = 0u64;
         for (i, c) in hc.iter().enumerate() {
             // every worker takes a slice; C03 / C08 visit a third of the grid per run, rotated by the seed
@@ -466,6 +467,10 @@ pub fn run_history_property(a: &WorkerArgs) -> WorkerReport {
                 continue;
             }
             if matches!(prop, 3 | 6 | 8) && c.seed < 1000 && (i as u64 + a.seed) % 3 != 0 {
+                continue;
+            }
+            // the position battery: half of the grid per run (rotated by the seed), all of it in the thorough tier
+            if c.script == 1 && !a.thorough && (i as u64 + a.seed) % 2 != 0 {
                 continue;
             }
             journal.write(&serde_json::to_string(c).unwrap());
@@ -493,6 +498,7 @@ pub fn run_history_property(a: &WorkerArgs) -> WorkerReport {
                     3 => matches!(f.group, Group::Content | Group::Ret | Group::Panic),
                     6 => f.group == Group::Sorted || f.op == "sorted",
                     8 => matches!(f.op, "iter_mut" | "pop_if" | "retain"),
+                    11 => matches!(f.op, "push_increase" | "push_decrease") && f.group != Group::Tables,
                     _ => false,
                 };
                 if owned && !acc.rep.violations.iter().any(|v| v.signature == f.signature()) {
@@ -682,6 +688,7 @@ pub fn replay_history(prop: u8, text: &str, strict_known: &[KnownFinding]) -> Re
     }
     if text.contains("\"huge\":true") {
         let c: crate::huge::HugeCase = serde_json::from_str(text).map_err(|e| format!("cannot parse case: {}", e))?;
+        crate::huge::HUGE_PROP.with(|p| p.set(prop));
         return Ok(crate::huge::huge_verdict(&c).err());
     }
     #[cfg(feature = "std")]
